@@ -164,9 +164,7 @@ PROPS = {
              "caught (debug-assertions + overflow-checks on). Malformed stream (buildx) only validates the model's traps.",
         trusted=COMMON_TRUST, assumptions=["stack/heap exhaustion and allocator aborts are not modelled"]),
     "C11": dict(
-        module="FastQr.Props.C11", level="proof", key=key_unit, partial=True,
-        missing=["ranking score = documented penalty (line = runs+windows, squares = blocks) is checked on every recorded "
-                 "candidate, the symbolic equivalence is not yet proved"],
+        module="FastQr.Props.C11", more_modules=["FastQr.Props.C11Doc"], level="proof", key=key_unit,
         rule="cases: builds with the selection recorder hook: 8 (mask, ranking score, candidate matrix) per build; spec verdict = "
              "candidates are masks 0..7 of one placed matrix and the emitted mask's Spec.Penalty.total is minimal (forced mask "
              "overrides). distinct = (level, mode, version, forced?, chosen mask, length class).",
